@@ -104,6 +104,75 @@ def _session_procs(sid: int) -> int:
     return n
 
 
+def bridge_batch(batch: list[str]) -> dict:
+    """The real Bridge.recv_events on one scripted batch (then nothing more: a second poll ends the loop)."""
+    import cascade.executor.bridge as BR
+    from cascade.executor.msg import (Ack, DatasetId, DatasetPublished, DatasetPurge, DatasetTransmitFailure, DatasetTransmitPayload,
+                                      DatasetTransmitPayloadHeader, ExecutorExit, ExecutorFailure, ExecutorRegistration, TaskFailure)
+    from cascade.low.core import WorkerId
+
+    class Stop(BaseException):
+        pass
+
+    w = WorkerId("h0", "w0")
+    mk = {"published": lambda i: DatasetPublished(w, DatasetId(f"t{i}", "0"), None),
+          "payload": lambda i: DatasetTransmitPayload(DatasetTransmitPayloadHeader("a", i, DatasetId(f"p{i}", "0"), "cloudpickle.loads"), b"x"),
+          "ack": lambda i: Ack(i), "registration": lambda i: ExecutorRegistration("h0", "m", "d", []),
+          "task_failure": lambda i: TaskFailure(w, "t", "boom"), "executor_failure": lambda i: ExecutorFailure("h0", "boom"),
+          "transmit_failure": lambda i: DatasetTransmitFailure("h0", "boom"), "executor_exit": lambda i: ExecutorExit("h0"),
+          "unsupported": lambda i: DatasetPurge(DatasetId("t", "0"))}
+    msgs = [mk[k](i) for i, k in enumerate(batch)]
+    calls = {"n": 0, "shutdown": False}
+
+    class Listener:
+        address = "ctrl"
+
+        def recv_messages(self, timeout_ms=None):
+            calls["n"] += 1
+            if calls["n"] > 1:
+                raise Stop
+            return list(msgs)
+
+    class Sender:
+        def __init__(self):
+            self.hosts = {"h0": (None, "m"), "data.h0": (None, "d")}
+
+        def ack(self, idx):
+            pass
+
+        def maybe_retry(self):
+            pass
+
+        def send(self, *a):
+            pass
+
+    class Beat:
+        def step(self):
+            pass
+
+        def is_breach(self):
+            return 0
+
+        def elapsed_ms(self):
+            return 0
+
+    b = BR.Bridge.__new__(BR.Bridge)
+    b.mlistener, b.sender, b.heartbeat_checker = Listener(), Sender(), {"h0": Beat()}
+
+    def shutdown():
+        calls["shutdown"] = True
+
+    b.shutdown = shutdown
+    try:
+        evs = b.recv_events()
+        names = ["published" if isinstance(e, DatasetPublished) else "payload" for e in evs]
+        return {"raises": False, "events": names, "shutdown_called": calls["shutdown"]}
+    except Stop:
+        return {"raises": False, "events": [], "shutdown_called": calls["shutdown"]}
+    except Exception:
+        return {"raises": True, "events": [], "shutdown_called": calls["shutdown"]}
+
+
 def run(ctx):
     # ---- 1. the state machine
     cfg = tlc.cfg_text(spec="Spec", constants={"HealthcheckRaises": "TRUE", "ZeroExitIsFailure": "TRUE"}, properties=PROPS)
@@ -140,6 +209,17 @@ def run(ctx):
         ctx.violate("post:" + "+".join(sorted(names)) + ":" + sc["mode"],
                     f"real cluster {sc['hosts']}x{sc['workers']}, fault {sc['mode']} in {sc['task'] or '-'}@{sc['point'] or '-'}: {sorted(names)}; observed {ob}",
                     {"scenario": sc, "observed": ob}, clause="+".join(sorted(names)))
+    # ---- 2b. Bridge.recv_events on every drained batch of up to three messages (a failure report anywhere fails the run)
+    bf, batches = p3.generate(ctx, "Failure", consts, env={"PASS": "batches", "TIER": ctx.tier}, defs=defs, op="GenerateBatches", tag="batches")
+    bres = [bridge_batch(b) for b in batches]
+    brf = ctx.scratch / "c05_batches.json"
+    brf.write_text(json.dumps(bres))
+    bbad = p3.judge(ctx, "Failure", consts, bf, brf, env={"PASS": "batchesj", "JUDGE_CASES": str(bf), "TIER": ctx.tier}, defs=defs,
+                    op="JudgeBatches", tag="batchesj")
+    for i, names in sorted(bbad.items()):
+        ctx.violate("bridge_batch:" + "+".join(sorted(names)), f"Bridge.recv_events on drained batch {batches[i-1]}: {sorted(names)}; observed {bres[i-1]}",
+                    {"batch": batches[i - 1], "observed": bres[i - 1]}, clause="+".join(sorted(names)))
+    ctx.coverage["bridge_batches"] = len(batches)
     # ---- 3. teardown of the shm store itself (Manager.atexit), bound through spec/Shm.tla's AtExit action (shared engine of C08/C09)
     from ..shm_engine import report as shm_report
     shm_cov_before = dict(ctx.coverage)
